@@ -252,6 +252,8 @@ class H2Client:
         self.unacked: Dict[int, int] = {}
         self.frames_data: List[tuple] = []  # (t, stream_id, len, flow_len)
         self.ws: Dict[int, WSParser] = {}
+        self.started = False
+        self.prebuf: List[Tuple[bytes, float]] = []
 
     def stream(self, sid: int) -> dict:
         if sid not in self.streams:
@@ -262,6 +264,9 @@ class H2Client:
 
     def feed(self, data: bytes, t: float) -> None:
         if self.error is not None:
+            return
+        if not self.started:  # a real client reads nothing before it has sent its preface
+            self.prebuf.append((data, t))
             return
         try:
             evs = self.conn.receive_data(data)
@@ -335,10 +340,17 @@ class H2Client:
     def command(self, name: str, args: tuple) -> bytes:
         c = self.conn
         try:
-            if name == "preface":
-                c.initiate_connection()
-            elif name == "upgrade_preface":  # after an h2c upgrade: stream 1 is half closed (local)
-                c.initiate_upgrade_connection()
+            if name in ("preface", "upgrade_preface"):
+                if name == "preface":
+                    c.initiate_connection()
+                else:  # after an h2c upgrade: stream 1 is half closed (local)
+                    c.initiate_upgrade_connection()
+                out = c.data_to_send()
+                self.started = True
+                for d, t in self.prebuf:
+                    self.feed(d, t)
+                self.prebuf = []
+                return out + self.take()
             elif name == "headers":
                 sid, headers, end = args[0], args[1], args[2]
                 c.send_headers(sid, list(headers), end_stream=end,
@@ -436,6 +448,7 @@ class Client:
     def _h2c_feed(self, data: bytes, t: float) -> None:
         if not self._h2c_started:
             self._h2c_started = True
+            self.h2.started = True
             self.h2.conn.initiate_upgrade_connection()
             self.h2.pending.extend(self.h2.conn.data_to_send())
         self.h2.feed(data, t)
